@@ -226,8 +226,8 @@ func Small() []string { return handK }
 
 // Scaled family member.
 type Scaled struct {
-	Name string
-	Src  string
+	Name  string
+	Src   string
 	Name2 string // program name to use (default "input")
 }
 
